@@ -1,6 +1,6 @@
 (* Command dispatcher of the extracted engine. *)
 From Zorg Require Import Base.PyStr Base.Sexp Base.Res.
-From Zorg Require Import Model.FileGroups Model.Zid Model.Rename.
+From Zorg Require Import Model.FileGroups Model.Zid Model.Rename Model.Templates.
 
 Definition commands : list (str * (list sexp -> sexp)) :=
   [ (S "expand", cmd_expand)
@@ -11,6 +11,8 @@ Definition commands : list (str * (list sexp -> sexp)) :=
   ; (S "zid_chars", cmd_zid_chars)
   ; (S "rename_text", cmd_rename_text)
   ; (S "rename_dir", cmd_rename_dir)
+  ; (S "tmpl_plan", cmd_tmpl_plan)
+  ; (S "build_body", cmd_build_body)
   ].
 
 Fixpoint find_cmd (n : str) (l : list (str * (list sexp -> sexp))) : option (list sexp -> sexp) :=
